@@ -22,14 +22,31 @@ def sh(cmd, **kw):
     return subprocess.run(cmd, stdout=subprocess.PIPE, stderr=subprocess.STDOUT, text=True, **kw)
 
 
+def row_of(sid, pid, meta, checks, final):
+    det = [c for c in checks if final.get(c, {}).get("rc") == 1]
+    real = [c for c in det if final[c]["with_failing_input"]]
+    return (sid, pid, meta.get("summary", "")[:150].replace("|", "/"), meta.get("what_it_needs_to_manifest", "")[:150].replace("|", "/"),
+            "not swept" if not final else "patch no longer applies" if not final.get("patch_applies") else
+            ("neutralised: with the fix: commits now in /repo its demonstration passes (the property holds)"
+             if final.get("demo_fails_on_patched_head") is False and not det else "") or
+            (", ".join(f"{c} (failing input)" if c in real else f"{c} (correspondence only)" for c in det) or "MISSED"))
+
+
 def main():
-    ids = sys.argv[1:] or sorted(p.name for p in (ROOT / "seeded").iterdir() if p.is_dir())
+    summary_only = "--summary-only" in sys.argv
+    args = [a for a in sys.argv[1:] if not a.startswith("--")]
+    ids = args or sorted((p.name for p in (ROOT / "seeded").iterdir() if p.is_dir()),
+                         key=lambda n: (n.split("-")[0], int(n.split("-")[1])))
     rows = []
     for sid in ids:
         d = ROOT / "seeded" / sid
         meta = json.loads((d / "meta.json").read_text())
         pid = meta.get("breaks_property") or sid.split("-")[0]
         checks = [pid] + [c for c in meta.get("also_check", []) if c != pid]
+        if summary_only:
+            final = meta.get("final_detection") or {}
+            rows.append(row_of(sid, pid, meta, checks, final))
+            continue
         wt = Path(f"/tmp/sweep-{sid}")
         sh(["git", "-C", "/repo", "worktree", "remove", "--force", str(wt)])
         sh(["git", "-C", "/repo", "worktree", "add", "--detach", str(wt), "HEAD"])
@@ -62,13 +79,7 @@ def main():
             sh(["git", "-C", "/repo", "worktree", "remove", "--force", str(wt)])
         meta["final_detection"] = final
         (d / "meta.json").write_text(json.dumps(meta, indent=1))
-        det = [c for c in checks if final.get(c, {}).get("rc") == 1]
-        real = [c for c in det if final[c]["with_failing_input"]]
-        rows.append((sid, pid, meta.get("summary", "")[:150].replace("|", "/"), meta.get("what_it_needs_to_manifest", "")[:150].replace("|", "/"),
-                     "patch no longer applies" if not final.get("patch_applies") else
-                     ("neutralised: with the fix: commits now in /repo its demonstration passes (the property holds)"
-                      if final.get("demo_fails_on_patched_head") is False and not det else "") or
-                     (", ".join(f"{c} (failing input)" if c in real else f"{c} (correspondence only)" for c in det) or "MISSED")))
+        rows.append(row_of(sid, pid, meta, checks, final))
         print(rows[-1][0], "->", rows[-1][-1], flush=True)
     out = ["# Seeded changes and which check reports them", "",
            "Each change was produced by an independent agent that saw only the property text and a scratch worktree, was "
@@ -76,7 +87,7 @@ def main():
            "and is detected (or not) by the checks as listed. Regenerate with `tools/sweep_seeded.py`.", "",
            "| id | property | change | needs | reported by |", "|----|----------|--------|-------|-------------|"]
     out += [f"| {a} | {b} | {c} | {d_} | {e} |" for a, b, c, d_, e in rows]
-    if not sys.argv[1:]:
+    if not args:
         (ROOT / "seeded" / "SUMMARY.md").write_text("\n".join(out) + "\n")
 
 
